@@ -40,7 +40,12 @@ def norm_region(d):
 def depth(reg, x, y):
     """Signed depth of (x,y) inside reg: > 0 inside, < 0 outside (|.| is a lower bound of the distance)."""
     if reg["type"] == "RectangularRegion":
+        vals = (reg["x1"], reg["x2"], reg["y1"], reg["y2"])
+        if any(v != v for v in vals):
+            return -math.inf        # a not-a-number edge: every comparison fails, the region contains nothing
         return min(x - reg["x1"], reg["x2"] - x, y - reg["y1"], reg["y2"] - y)
+    if reg["r"] != reg["r"] or reg["cx"] != reg["cx"] or reg["cy"] != reg["cy"]:
+        return -math.inf
     return reg["r"] - math.hypot(x - reg["cx"], y - reg["cy"])
 
 
@@ -48,6 +53,8 @@ def _exact_member(reg, x, y):
     """Closed membership decided exactly (all inputs are exactly representable doubles)."""
     if reg["type"] == "RectangularRegion":
         return reg["x1"] <= x <= reg["x2"] and reg["y1"] <= y <= reg["y2"]
+    if reg["r"] != reg["r"] or reg["cx"] != reg["cx"] or reg["cy"] != reg["cy"]:
+        return False
     dx, dy, r = Fraction(x) - Fraction(reg["cx"]), Fraction(y) - Fraction(reg["cy"]), Fraction(reg["r"])
     if r < 0:
         return False
